@@ -110,6 +110,10 @@ func (c *coalescing) Run(ctx context.Context, ch chan<- struct{}) error {
 
 	// Prevent wg race condition on Close and Run.
 	c.lock.Lock()
+	if c.closed.Load() {
+		c.lock.Unlock()
+		return nil
+	}
 	c.wg.Add(1)
 	c.lock.Unlock()
 	defer c.wg.Done()
@@ -225,6 +229,9 @@ func (c *coalescing) reset() {
 func (c *coalescing) Add() {
 	c.lock.Lock()
 	defer c.lock.Unlock()
+	if c.closed.Load() {
+		return
+	}
 	c.pendingEvents++
 	c.wg.Add(1)
 	go func() {
@@ -237,15 +244,16 @@ func (c *coalescing) Add() {
 }
 
 func (c *coalescing) Close() {
-	defer func() {
-		// Prevent wg race condition on Close and Run.
-		c.lock.Lock()
-		c.wg.Wait()
-		c.lock.Unlock()
-	}()
+	// Mark the rate limiter as closed under the lock: Run and Add only add to the
+	// wait group under the lock and while not closed, so none of that can race
+	// with the Wait below. The lock must not be held while waiting, because the
+	// goroutines being waited for need it to finish.
+	c.lock.Lock()
 	if c.closed.CompareAndSwap(false, true) {
 		close(c.closeCh)
 	}
+	c.lock.Unlock()
+	c.wg.Wait()
 }
 
 var _ RateLimiter = (*coalescing)(nil)
